@@ -106,11 +106,12 @@ Lemma index_exact_reach es p :
 Proof. apply index_exact_lemma. Qed.
 
 (* ---- the pinned behaviours, replayed on the model with one repair switched off ---- *)
-Definition cfg_nodel : cfg := mkCfg false true true true.
-Definition cfg_nocas : cfg := mkCfg true false true true.
+Definition cfg_nodel : cfg := mkCfg false true true true true.
+Definition cfg_nocas : cfg := mkCfg true false true true true.
 
 Definition takeover_history : list pevent :=
-  [PAccept 1000 true; PSess 0 (EReader true); PAccept 1001 true; PSess 1 (EReader true);
+  [PAccept 1000 true; PSess 0 (EReader true); PSess 0 (EReader true);
+   PAccept 1001 true; PSess 1 (EReader true); PSess 1 (EReader true);
    PSetID 0 7; PSetID 1 7]
   ++ repeat (PSess 0 ECloser) 8
   ++ [PSess 0 (EFrame FrErr); PSess 0 (EReader true); PSess 0 (EReader true); PSess 0 (EReader true)].
@@ -141,3 +142,34 @@ Lemma close_race_fixed :
   exists s, srun live_session (firstn 7 close_race_history ++ repeat (EReader true) 6 ++ repeat ECloser 7) = Some s
             /\ hooks s = 1 /\ notified s = 1 /\ st s = ActiveClosed /\ terminal s = true.
 Proof. eexists. split; [vm_compute; reflexivity|]. vm_compute. auto. Qed.
+
+(* ---- accept order "index insert first, status ok when the accepting goroutine carries on"
+        (serveListener before 6514bc6; the seeded change C07-r2m2 in ServeConn) ---- *)
+Definition cfg_noacc : cfg := mkCfg true true true true false.
+
+(* O serves a handler; A is accepted under O's id (its goroutine parks in O's Close, which waits
+   for the handler); B is accepted under the same id and closes A; then A's goroutine carries on *)
+Definition resurrect_history : list pevent :=
+  [PAccept 7 true; PSess 0 (EReader true); PSess 0 (EReader true);
+   PSess 0 (EFrame FrCall); PSess 0 (EReader true); PSess 0 (EReader true); PSess 0 (EReader true);
+   PSess 0 (EHandler 0 false WOk);
+   PAccept 7 true] ++ repeat (PSess 0 ECloser) 3 ++
+  [PAccept 7 true] ++ repeat (PSess 1 ECloser) 8 ++
+  [PSess 1 (EReader true)].
+
+Lemma closed_absorbing_prefix_refuted_lemma :
+  (exists p s, prun_cfg cfg_noacc peer0 (firstn 21 resurrect_history) = Some p /\
+               nth_error (sessions p) 1 = Some s /\ st s = ActiveClosed /\ notified s = 1 /\ hooks s = 1) /\
+  (exists p s, prun_cfg cfg_noacc peer0 resurrect_history = Some p /\
+               nth_error (sessions p) 1 = Some s /\ st s = Ok /\ notified s = 1) /\
+  (exists p s, prun_cfg cfg_noacc peer0
+                 (resurrect_history ++ [PSess 1 (EReader true); PSess 1 (EFrame FrErr)] ++ repeat (PSess 1 (EReader true)) 9) = Some p /\
+               nth_error (sessions p) 1 = Some s /\ st s = PassiveClosed /\ hooks s = 2).
+Proof.
+  split; [|split]; eexists; eexists; (split; [vm_compute; reflexivity|]); vm_compute; auto.
+Qed.
+
+Lemma resurrect_fixed :
+  exists p s, prun peer0 (resurrect_history ++ [PSess 1 (EReader true)] ++ repeat (PSess 1 (EReader true)) 2) = Some p /\
+              nth_error (sessions p) 1 = Some s /\ st s = ActiveClosed /\ hooks s = 1 /\ rd s = RDone.
+Proof. eexists; eexists. split; [vm_compute; reflexivity|]. vm_compute. auto. Qed.
